@@ -71,6 +71,26 @@ func TestC02Proc(t *testing.T) {
 					Ops:    []string{"new", "start", "client", "dispense", "set:4", "get", "kill", "proc?"},
 				})
 				exps = append(exps, exp{common})
+				// a host that is itself a plugin: the version list its own parent offered sits in its environment, or in the
+				// environment it built for the command (Cmd.Env = its own environment + extras); the list it offers is still its own
+				if proto == "netrpc" || tier() == "thorough" {
+					for _, nest := range []struct {
+						list  string
+						inCmd bool
+					}{{"1", true}, {"9", false}, {"2,1", true}} {
+						if tier() != "thorough" && nest.list == "2,1" {
+							continue
+						}
+						cells = append(cells, Cell{
+							Name:    fmt.Sprintf("%s host{legacy=%d versioned=%v} plugin{legacy=%d versioned=%v} inherited PLUGIN_PROTOCOL_VERSIONS=%s in-Cmd.Env=%v", proto, h.legacy, h.vers, p.legacy, p.vers, nest.list, nest.inCmd),
+							Plugin:  PluginConf{CookieKey: cookieKey, CookieValue: cookieVal, Legacy: p.legacy, LegacyProto: proto, Versions: pv, GRPCServer: true, TLS: "none"},
+							Host:    HostConf{Allowed: []string{"netrpc", "grpc"}, TLS: "none", Launch: "cmd", Legacy: h.legacy, Versions: h.vers, SkipHostEnv: nest.inCmd, AmbientInCmd: nest.inCmd},
+							Ops:     []string{"new", "start", "client", "dispense", "set:4", "get", "kill", "proc?"},
+							Ambient: map[string]string{"PLUGIN_PROTOCOL_VERSIONS": nest.list},
+						})
+						exps = append(exps, exp{common})
+					}
+				}
 			}
 		}
 	}
